@@ -11,6 +11,12 @@ from cfg import *
 from facts import *
 
 
+# Functions of the reviewed tree that no longer exist (a wrapper inlined into its callers, or renamed), with the gates and state changes
+# every ok path of theirs passed (from the R9 baseline) and the callers they had. A rule that names such a function as a required call or
+# as a sink is evaluated on what the function did: "add_block was called" becomes "Batch::save_block was called".
+VANISHED = {}   # full key -> {"must": [short callee names], "callers": [role keys]}
+
+
 def pat(s):
     """Call-name pattern: 're:<regex>' is used as is (search); otherwise an exact path suffix."""
     if isinstance(s, (list, tuple, set, frozenset)):
@@ -19,7 +25,33 @@ def pat(s):
         return s
     if s.startswith("re:"):
         return re.compile(s[3:])
+    v = VANISHED.get(s)
+    if v and v["must"]:
+        return re.compile("|".join(r"(?:(?:^|::|<| )%s$)" % re.escape(m) for m in v["must"]))
     return re.compile(r"(?:^|::|<| )" + re.escape(s) + r"$")
+
+
+def load_vanished(F, baseline_dir):
+    """Fills VANISHED from baseline/functions.json and the per-property baselines."""
+    import glob, json, os
+    VANISHED.clear()
+    try:
+        known = json.load(open(os.path.join(baseline_dir, "functions.json")))
+    except (OSError, ValueError):
+        return
+    gone = [k for k in known if k not in F.fns and not re.search(r"#\d+$", k)]
+    if not gone:
+        return
+    info = {}
+    for bp in glob.glob(os.path.join(baseline_dir, "C*.json")):
+        for role, b in json.load(open(bp)).items():
+            if role in gone:
+                e = info.setdefault(role, {"must": set(), "callers": set()})
+                e["must"] |= {re.sub(r"#\d+$", "", re.sub(r"\(.*$", "", m)) for m in b.get("must", [])}
+                e["callers"] |= set(b.get("callers", []))
+    for k in gone:
+        e = info.get(k, {"must": set(), "callers": set()})
+        VANISHED[k] = {"must": sorted(e["must"]), "callers": sorted(e["callers"])}
 
 
 # wrappers that always run their closure argument exactly once before returning Ok
@@ -52,6 +84,11 @@ class Ctx:
         return verdict == "hold"
 
     def lost(self, rid, kind, fn, desc, what):
+        v = VANISHED.get(fn) if isinstance(fn, str) else None
+        if v and v["callers"] and all(c in self.F.fns for c in v["callers"]) and what.startswith("function not found"):
+            # the function was inlined into its (still present) callers: what it did is held to the callers' confirmed summaries (R9)
+            self.notes.append("%s: %s no longer exists (inlined into %s); the obligation is carried by the baseline of its callers" % (rid, fn, v["callers"][:3]))
+            return self.record(rid, kind, fn, desc + " [function inlined into its callers]", "hold", [])
         return self.record(rid, kind, fn, desc, "anchor-lost", witness=[what], key_detail="anchor-lost")
 
     # ------------------------------------------------------------------ function lookup
@@ -196,7 +233,7 @@ class Ctx:
             srx = pat(sink)
             targets = {bi for bi, t in F.calls(key) if call_matches(t, srx) and (sink_where is None or self._where(f, t, sink_where))}
             targets &= live_blocks(f)
-            dead = ()
+            dead = set(f.get("_errx_inlined", ()))  # error exits of an inlined helper whose Err the caller propagates
             if not targets:
                 return self.lost(rid, "R1", key, d, "no sink call matching %s in %s" % (sink, key))
             site_locs += ["sink " + loc(f["blocks"][b]["term"]) for b in sorted(targets)]
@@ -295,8 +332,11 @@ class Ctx:
     # ------------------------------------------------------------------ R3 who-may-call
     def r3(self, rid, callee, allowed, floor_sites=None, exact_sites=None, desc=None, fold_closures=True, crates=None):
         F = self.F
-        rx = pat(callee)
         d = desc or "callers of %s are a closed set" % (callee,)
+        if isinstance(callee, str) and callee in VANISHED:
+            self.notes.append("%s: %s no longer exists (inlined or renamed); who may call what it did is decided by the rules on its callees" % (rid, callee))
+            return self.record(rid, "R3", None, d + " [callee no longer exists]", "hold", [])
+        rx = pat(callee)
         sites = collections.defaultdict(list)
         for name, lst in F.callers.items():
             if rx.search(name):
@@ -309,6 +349,10 @@ class Ctx:
         nsites = len({s for v in sites.values() for s in v})
         self.stats["call_sites"] += nsites
         allowed = set(allowed)
+        # a caller of an allowed function that was inlined into it takes over its permission
+        for a in list(allowed):
+            if a in VANISHED:
+                allowed |= {c for c in VANISHED[a]["callers"]}
         extra = sorted(set(sites) - allowed)
         ok = True
         locs = sorted({loc(F.fns[k]["blocks"][bi]["term"]) for v in sites.values() for (k, bi) in v})
@@ -396,7 +440,7 @@ class Ctx:
             fn["_guards"] = g
         return g
 
-    def find_guard(self, key, ops, lhs=(), rhs=(), any_side=(), cond=None, strict_ops=True):
+    def find_guard(self, key, ops, lhs=(), rhs=(), any_side=(), cond=None, strict_ops=True, cond_atoms=None):
         """Switch blocks of `key` whose condition is a comparison with op in ops (after normalising Not),
         lhs atoms ⊇ lhs, rhs atoms ⊇ rhs (sides may be swapped with the operator mirrored), or, with
         cond=regex, whose rendered condition matches. Returns [(block, true_target, false_target, text)]"""
@@ -405,17 +449,37 @@ class Ctx:
         for bi, e, arms, els in self.guards(key):
             am = dict(arms)
             # bool switch: arm "0" is false
-            if cond is not None:
-                txt = render(e)
-                if not re.search(cond, txt):
-                    continue
-                neg = False
-                ee = e
+            if cond_atoms is not None:
+                # a boolean / discriminant test (not a comparison) of a value derived from all the given atoms
+                ee, neg = e, False
                 while ee.kind == "un" and ee.a == "Not":
                     neg = not neg
                     ee = ee.kids[0]
+                if as_cmp(ee) is None and _has(atoms(ee), cond_atoms):
+                    t_true, t_false = els, am.get("0", els)
+                    if neg:
+                        t_true, t_false = t_false, t_true
+                    out.append((bi, t_true, t_false, render(e)))
+                continue
+            if cond is not None:
+                txt = render(e)
                 t_true, t_false = els, am.get("0", els)
-                out.append((bi, t_true, t_false, txt))
+                if re.search(cond, txt):
+                    out.append((bi, t_true, t_false, txt))
+                    continue
+                # the same comparison written with the opposite polarity or with its operands exchanged (`a == b` / `a != b`, `a > b` / `b < a`)
+                c = as_cmp(e)
+                if c:
+                    op, l, r = c
+                    lt, rt = render(l), render(r)
+                    for o2, a, b, flip in ((NEGATE[op], lt, rt, True), (SWAP[op], rt, lt, False), (NEGATE[SWAP[op]], rt, lt, True)):
+                        hit = False
+                        for form in ("%s(%s, %s)" % (o2, a, b), "%s(%s, %s)" % (_CMP_NAME[o2], a, b)):
+                            if re.search(cond, form):
+                                hit = True
+                        if hit:
+                            out.append((bi, t_false, t_true, txt) if flip else (bi, t_true, t_false, txt))
+                            break
                 continue
             c = as_cmp(e)
             if not c:
@@ -493,26 +557,30 @@ class Ctx:
         return out
 
     def r2(self, rid, fn, ops=(), lhs=(), rhs=(), any_side=(), cond=None, err=None, fail_on=True, sink="ok",
-           bypass=(), desc=None, dominate=True, min_guards=1, strict_ops=True, within_iteration=False):
+           bypass=(), desc=None, dominate=True, min_guards=1, strict_ops=True, within_iteration=False, cond_atoms=None, sink_optional=False):
         """There is a guard `cmp(op, lhs, rhs)` in fn whose failing edge (taken when the comparison is
         `fail_on`) leads to the error variant `err` and cannot reach the sink, and (dominate=True) every
         path to the sink passes the guard's passing edge or one of the `bypass` conditions' edges.
         bypass: list of dicts(cond=regex, edge=True|False)."""
         F = self.F
-        what = cond if cond else "%s(%s ; %s%s)" % ("|".join(ops), ",".join(lhs), ",".join(rhs), (" ; " + ",".join(any_side)) if any_side else "")
+        what = cond if cond else ("test(%s)" % ",".join(cond_atoms)) if cond_atoms else "%s(%s ; %s%s)" % ("|".join(ops), ",".join(lhs), ",".join(rhs), (" ; " + ",".join(any_side)) if any_side else "")
         d = desc or "%s: guard %s -> %s" % (short(fn, 2), what, err or "reject")
         key = self.getfn(fn)
         if key is None:
             return self.lost(rid, "R2", fn, d, "function not found: " + fn)
         f = F.fns[key]
-        gs = self.find_guard(key, ops, lhs, rhs, any_side, cond, strict_ops=strict_ops)
+        gs = self.find_guard(key, ops, lhs, rhs, any_side, cond, strict_ops=strict_ops, cond_atoms=cond_atoms)
+        if sink_optional and sink not in ("ok", "return"):
+            # the guarded construct (e.g. a pre-allocation) may legitimately disappear: the guard then has to reject before the ok exit
+            if not ({bi for bi, t in F.calls(key) if call_matches(t, pat(sink))} & live_blocks(f)):
+                sink = "ok"
         if sink in ("ok", "return"):
             targets = return_blocks(f)
             dead = error_exit_blocks(f) if sink == "ok" else set()
         else:
             srx = pat(sink)
             targets = {bi for bi, t in F.calls(key) if call_matches(t, srx)} & live_blocks(f)
-            dead = set()
+            dead = set(f.get("_errx_inlined", ()))
             if not targets:
                 return self.lost(rid, "R2", key, d, "no sink call matching %s" % (sink,))
         if within_iteration:
@@ -537,6 +605,35 @@ class Ctx:
                 if kind in ("try", "match", "match-far", "plain-return") and e:
                     sb, pt = e[0]
                     good.append((sb, pt, None, "%s [in helper %s]" % (txt, short(g, 2))))
+        if len(good) < min_guards and not dominate and cond is None and cond_atoms is None:
+            # the comparison may sit in a closure handed to an iterator adaptor (`for k in ks { if k.h > h {return Err} }` written as
+            # `ks.iter().find(|k| k.h > h)`): parameter paths become captured-variable paths, so only their field suffix is matched
+            def relax(items):
+                out = []
+                for r in items:
+                    m = re.match(r"^arg\d+((?:\.[a-z_][a-z0-9_]*)+)$", r)
+                    out.append("re:" + re.escape(m.group(1)) + "$" if m else r)
+                return out
+            seen_cl, frontier = set(), [key]
+            for _ in range(2):
+                nxt = []
+                for x in frontier:
+                    for _bi, t in F.calls(x):
+                        for cl in t.get("ncallables", []):
+                            if cl in F.fns and cl not in seen_cl:
+                                seen_cl.add(cl)
+                                nxt.append(cl)
+                frontier = nxt
+            for cl in sorted(seen_cl):
+                hits = self.find_guard(cl, ops, relax(lhs), relax(rhs), relax(any_side), None, strict_ops=strict_ops)
+                if not hits and lhs and rhs:
+                    # one operand may reach the closure through the adaptor chain (`filter_map(..).find(|h| h > height)`)
+                    hits = self.find_guard(cl, ops, (), relax(rhs), relax(any_side), None, strict_ops=False) or self.find_guard(cl, ops, relax(lhs), (), relax(any_side), None, strict_ops=False)
+                for (bi, t_true, t_false, txt) in hits:
+                    good.append((None, None, None, "%s [in closure %s]" % (txt, short(cl, 2))))
+            if len(good) >= min_guards:
+                self.stats["guards"] += len(good)
+                return self.record(rid, "R2", key, d + " [comparison inside an iterator-adaptor closure]", "hold", [g[3][:140] for g in good])
         if len(good) < min_guards:
             seen = ["candidates: " + g[3][:160] for g in gs[:4]]
             return self.record(rid, "R2", key, d, "violation", [fn_loc(f)],
@@ -606,7 +703,7 @@ class Ctx:
         else:
             srx = pat(sink)
             targets = {bi for bi, t in F.calls(key) if call_matches(t, srx)} & live_blocks(f)
-            dead = set()
+            dead = set(f.get("_errx_inlined", ()))
             if not targets:
                 return self.lost(rid, "R2", key, d, "no sink call matching %s" % (sink,))
         starts = [0]
@@ -722,6 +819,9 @@ class Ctx:
         return ok
 
 
+_CMP_NAME = {"Eq": "PartialEq::eq", "Ne": "PartialEq::ne", "Lt": "PartialOrd::lt", "Le": "PartialOrd::le", "Gt": "PartialOrd::gt", "Ge": "PartialOrd::ge"}
+
+
 def _touches(pl, owner, field):
     for p in pl["p"]:
         if isinstance(p, dict) and p.get("f") == field and (p.get("of") or "").split("::<")[0] == owner:
@@ -744,6 +844,9 @@ def _has(atomset, required):
             if not any(rx.search(a) for a in atomset):
                 return False
         elif r not in atomset:
+            # a literal and a named constant of the same value are the same bound
+            if r.startswith("const:") and any(a.startswith("item:") and a.endswith("=" + r[6:]) for a in atomset):
+                continue
             return False
     return True
 
